@@ -205,35 +205,37 @@ Theorem list_stores_requires_list_grant : forall g la cl name all ids,
 Proof. exact AuthzProofs.list_stores_requires_list_grant. Qed.
 Print Assumptions list_stores_requires_list_grant.
 
-(* full statement: list_stores g la cl name all = LSStores ids -> accessible_stores g la cl = Some acc
-   -> forall s, In s ids -> In s acc.   Missing part: acc = []. *)
-Theorem list_stores_subset_partial : forall g la cl name all acc ids,
-  accessible_stores g la cl = Some acc -> acc <> [] ->
-  list_stores g la cl name all = LSStores ids ->
-  forall s, In s ids -> In s acc.
-Proof. exact AuthzProofs.list_stores_subset_partial. Qed.
-Print Assumptions list_stores_subset_partial.
-Example list_stores_subset_partial_ex :
-  let g : grant_oracle := fun _ r _ => match r with R_CanCallListStores => Some true | _ => Some false end in
-  accessible_stores g (fun _ => Some [[66]]) (Claims [108]) = Some [[66]] /\
-  list_stores g (fun _ => Some [[66]]) (Claims [108]) [] [([65], [97]); ([66], [98])] = LSStores [[66]].
-Proof. vm_compute. split; reflexivity. Qed.
-
-(* the accessible list may name stores that were deleted or never existed and may be longer
-   than the list of live stores: every returned id is accessible and live *)
-Theorem list_stores_live_subset_partial : forall g la cl name all acc ids,
-  accessible_stores g la cl = Some acc -> acc <> [] ->
+(* for EVERY accessible list (empty; naming stores that were deleted or never existed; longer
+   than the list of live stores): every returned id is accessible and live *)
+Theorem list_stores_subset : forall g la cl name all acc ids,
+  accessible_stores g la cl = Some acc ->
   list_stores g la cl name all = LSStores ids ->
   forall s, In s ids -> In s acc /\ In s (map fst all).
-Proof. exact AuthzProofs.list_stores_live_subset_partial. Qed.
-Print Assumptions list_stores_live_subset_partial.
-(* grants on A, B (deleted), C (deleted) and a ghost: 4 ids, 3 live stores (root R, A, new N) *)
-Example list_stores_live_subset_partial_ex :
+Proof. exact AuthzProofs.list_stores_subset. Qed.
+Print Assumptions list_stores_subset.
+(* grants on A, B (deleted), C (deleted) and a ghost: 4 ids, 3 live stores (root R, A, new N);
+   and the lister-only caller of F9: empty accessible list, empty answer *)
+Example list_stores_subset_ex :
   let g : grant_oracle := fun _ r _ => match r with R_CanCallListStores => Some true | _ => Some false end in
   let la : list_oracle := fun _ => Some [[65]; [66]; [67]; [71]] in
   list_stores g la (Claims [108]) [] [([82], [114]); ([65], [97]); ([78], [110])] = LSStores [[65]] /\
-  list_stores_sqlite g la (Claims [108]) [] [([82], [114]); ([65], [97]); ([78], [110])] = LSStores [[65]].
-Proof. vm_compute. split; reflexivity. Qed.
+  list_stores_sqlite g la (Claims [108]) [] [([82], [114]); ([65], [97]); ([78], [110])] = LSStores [[65]] /\
+  list_stores f9_g f9_la (Claims f9_client) [] f9_all = LSStores [].
+Proof. vm_compute. repeat split; reflexivity. Qed.
+
+(* historical (F9, repaired by c075cf0): the old handler handed the empty list to the backend,
+   which reads it as "no filter" *)
+Example list_stores_pre_c075cf0_empty_grant :
+  accessible_stores f9_g f9_la (Claims f9_client) = Some [] /\
+  list_stores_pre_c075cf0 f9_g f9_la (Claims f9_client) [] f9_all = LSStores [[65]; [66]] /\
+  is_allow (authorize f9_g (Claims f9_client) M_GetStore [66] []) = false /\
+  backend_list_stores [] [] f9_all = f9_all.
+Proof. vm_compute. repeat split; reflexivity. Qed.
+
+(* the early return of the fixed handler is in the source (regenerated fact) *)
+Theorem list_stores_empty_guard_present : c26_list_stores_empty_guard = true.
+Proof. exact AuthzProofs.list_stores_empty_guard_present. Qed.
+Print Assumptions list_stores_empty_guard_present.
 
 Theorem backend_list_stores_exact : forall ids name all st,
   ids <> [] ->
@@ -248,32 +250,18 @@ Theorem backend_list_stores_same_members : forall ids name all st,
 Proof. exact AuthzProofs.backend_list_stores_same_members. Qed.
 Print Assumptions backend_list_stores_same_members.
 
-Theorem list_stores_gettable_partial : forall g la c name all acc ids,
-  accessible_stores g la (Claims c) = Some acc -> acc <> [] ->
+Theorem list_stores_gettable : forall g la c name all acc ids,
+  accessible_stores g la (Claims c) = Some acc ->
   (forall s, In s acc -> g c R_CanCallGetStore (OStore s) = Some true) ->
   list_stores g la (Claims c) name all = LSStores ids ->
   forall s, In s ids -> authorize g (Claims c) M_GetStore s [] = Allow.
-Proof. exact AuthzProofs.list_stores_gettable_partial. Qed.
-Print Assumptions list_stores_gettable_partial.
+Proof. exact AuthzProofs.list_stores_gettable. Qed.
+Print Assumptions list_stores_gettable.
 
-Theorem list_stores_subset_unless_trigger : forall g la cl name all ids,
-  tr_list_stores_empty_grant g la cl = false ->
-  list_stores g la cl name all = LSStores ids ->
-  exists acc, accessible_stores g la cl = Some acc /\ forall s, In s ids -> In s acc.
-Proof. exact AuthzProofs.list_stores_subset_unless_trigger. Qed.
-Print Assumptions list_stores_subset_unless_trigger.
-
-(* F9: the caller may list stores, the authorizer finds no accessible store, the backends read
-   the empty id list as "no filter": every store is returned, none of which the caller may get *)
-Theorem list_stores_empty_grant_refuted :
-  exists g la c all ids s,
-    accessible_stores g la (Claims c) = Some [] /\
-    tr_list_stores_empty_grant g la (Claims c) = true /\
-    list_stores g la (Claims c) [] all = LSStores ids /\
-    In s ids /\
-    is_allow (authorize g (Claims c) M_GetStore s []) = false.
-Proof. exact AuthzProofs.list_stores_empty_grant_refuted. Qed.
-Print Assumptions list_stores_empty_grant_refuted.
+Theorem list_stores_empty_accessible : forall g la cl name all,
+  accessible_stores g la cl = Some [] -> list_stores g la cl name all = LSStores [].
+Proof. exact AuthzProofs.list_stores_empty_accessible. Qed.
+Print Assumptions list_stores_empty_accessible.
 
 (* the executable specification the oracle evaluates is the decision itself *)
 Theorem spec_allowed_is_authorize : forall g cl m s mods,
